@@ -73,11 +73,13 @@ theorem LayerAndMask.dec_ok {v : Nat} {d : B} {p : Nat} {x : LayerAndMask} {p' :
   obtain ⟨⟨len, p1⟩, e1, hd⟩ := bind_ok hd
   obtain ⟨⟨x', p2⟩, e2, hd⟩ := bind_ok hd
   dsimp only at hd
-  cases hd
-  split at e2
-  · cases e2
-    exact ⟨rfl, rfl⟩
-  · exact LayerAndMask.bodyDec_ok e2
+  split at hd
+  · cases hd
+  · cases hd
+    split at e2
+    · cases e2
+      exact ⟨rfl, rfl⟩
+    · exact LayerAndMask.bodyDec_ok e2
 
 def LayerAndMask.Stable (x : LayerAndMask) : Prop := optProp LayerInfo.Stable x.layerInfo
 
